@@ -53,8 +53,9 @@ type Server struct {
 
 	outbox chan Transaction
 
-	Agreement io.ReadSeeker
-	Banner    []byte
+	Agreement   io.ReadSeeker
+	agreementMu sync.Mutex // serializes use of the Agreement's shared read cursor
+	Banner      []byte
 
 	FileTransferMgr FileTransferMgr
 	ChatMgr         ChatManager
@@ -477,8 +478,10 @@ func (s *Server) handleNewConnection(ctx context.Context, rwc io.ReadWriteCloser
 			c.Server.outbox <- NewTransaction(TranShowAgreement, c.ID, NewField(FieldNoServerAgreement, []byte{1}))
 		}
 	} else {
+		s.agreementMu.Lock()
 		_, _ = c.Server.Agreement.Seek(0, 0)
 		data, _ := io.ReadAll(c.Server.Agreement)
+		s.agreementMu.Unlock()
 
 		c.Server.outbox <- NewTransaction(TranShowAgreement, c.ID, NewField(FieldData, data))
 	}
